@@ -138,14 +138,21 @@ func RunByteStream(finals []BSFinal, seed int64, blobSizes []int, stride int) (r
 			}
 			var name string
 			uuid := fmt.Sprintf("%08x-1111-2222-3333-444444444444", rng.Uint32())
-			inst := []string{"", "inst/", "a/b/c/", "main/ac/", "x y/"}[rng.Intn(5)]
+			// instance names: none, plain, nested, and names whose segments merely contain the protocol's key words
+			insts := []string{"", "inst/", "a/b/c/", "main/ac/", "x y/", "ci-uploads/", "team/nightly_uploads/", "myblobs/", "compressed-blobs-mirror/eu/", "blobs-archive/uploads-old/"}
+			inst := insts[rng.Intn(len(insts))]
 			tail := []string{"", "/meta/data", "/foo"}[rng.Intn(3)]
 			switch {
 			case s.Name == "empty":
 				name = ""
 			case s.Name == "unparsable":
-				name = []string{"blobs/" + blob.Hash, "uploads/" + uuid + "/blobs/" + blob.Hash, "uploads/" + uuid + "/blobs/" + blob.Hash + "/notanumber",
-					"uploads/" + uuid + "/blobz/" + blob.Hash + "/5", "uploads/" + uuid + "/compressed-blobs/lz4/" + blob.Hash + "/5", "garbage"}[rng.Intn(6)]
+				bad := []string{"blobs/" + blob.Hash, "uploads/" + uuid + "/blobs/" + blob.Hash, "uploads/" + uuid + "/blobs/" + blob.Hash + "/notanumber",
+					"uploads/" + uuid + "/blobz/" + blob.Hash + "/5", "uploads/" + uuid + "/compressed-blobs/lz4/" + blob.Hash + "/5", "garbage",
+					// no segment is exactly "uploads" / "blobs"
+					fmt.Sprintf("inst/myuploads/%s/blobs/%s/%d", uuid, blob.Hash, bsz), fmt.Sprintf("x-uploads/%s/blobs/%s/%d", uuid, blob.Hash, bsz),
+					fmt.Sprintf("uploads/%s/myblobs/%s/%d", uuid, blob.Hash, bsz), fmt.Sprintf("uploads/%s/blobs/%s/-%d", uuid, blob.Hash, bsz),
+					fmt.Sprintf("uploads/%s/a/b/blobs/%s/%d", uuid, blob.Hash, bsz), fmt.Sprintf("uploads//blobs/%s/%d", blob.Hash, bsz)}
+				name = bad[rng.Intn(len(bad))]
 			case s.Zstd:
 				name = fmt.Sprintf("%suploads/%s/compressed-blobs/zstd/%s/%d%s", inst, uuid, blob.Hash, bsz, tail)
 			default:
